@@ -32,3 +32,88 @@ Example C17_hierarchy : (* realm > global > new-request > slot > {server, reply 
   edge_ok LSlot LSrvlock = true /\ edge_ok LSlot LReplyq = true /\ edge_ok LSlot LLeaf = true /\
   edge_ok LSlot LGlobal = false /\ edge_ok LReplyq LLeaf = true /\ edge_ok LLeaf LReplyq = false /\ edge_ok LReplyq LSrvlock = false.
 Proof. repeat split. Qed.
+
+(* ---- reference accounting.
+   refs st h = the number of places (client duplicate caches, client reply queues, server slots) that refer to
+   request object h; rcount st h = its counter (0 when it has been released);
+   safe st e := forall h, refs st h + e h <= rcount st h, where e h is the number of references the running code
+   itself holds.  `safe` says nothing that is still referred to has been released -- no dangling reference, no
+   double release.  The handlers are stated for EVERY state, configuration, packet, digest/regex oracle and
+   allocation-failure oracle; the history theorem for every sequence of operations from the empty state. *)
+From RSP Require Import Keeps_proofs Refs_proofs Tight_proofs Reg_proofs Balance_proofs.
+Local Open Scope N_scope.
+
+(* radsrv is entered holding one reference to the new request and gives it up exactly once on every path: to a
+   server slot (sendrq), to nobody (dropped), whatever else it registers (duplicate cache, reply queue) gets a
+   reference of its own *)
+Theorem C17_radsrv_consumes_its_reference : forall md5 rx cfg fs st h c now rnd e,
+  safe st (add1 e h) -> safe (fst (radsrv md5 rx cfg fs st h c now rnd)) e.
+Proof. exact safe_radsrv. Qed.
+Print Assumptions C17_radsrv_consumes_its_reference.
+
+(* replyh: the reference taken for the client's reply queue and the one the slot gives up are accounted for *)
+Theorem C17_replyh_balanced : forall md5 rx cfg fs st s buf now rnd e,
+  safe st e -> safe (fst (replyh md5 rx cfg fs st s buf now rnd)) e.
+Proof. exact safe_replyh. Qed.
+Print Assumptions C17_replyh_balanced.
+
+(* the server writer: retransmission, purge, abandonment, Status-Server probes *)
+Theorem C17_writer_balanced : forall md5 cfg fs s tick putfail e fuel st now rnd,
+  safe st e -> safe (fst (writer_release md5 cfg fs fuel st s now tick rnd putfail)) e.
+Proof. exact safe_writer_release. Qed.
+Print Assumptions C17_writer_balanced.
+
+(* the primitives: a reference taken, a reference given up (the object goes with the last one) *)
+Theorem C17_newrqref : forall st h r e, get_rq st h = Some r -> safe st e -> safe (newrqref st h) (add1 e h).
+Proof. exact safe_newrqref. Qed.
+Print Assumptions C17_newrqref.
+Theorem C17_freerq : forall st h e, safe st (add1 e h) -> safe (freerq st h) e.
+Proof. exact safe_freerq. Qed.
+Print Assumptions C17_freerq.
+
+(* every history of the six operations (request received, reply received, writer released, client queue drained,
+   client gone, server gone), each with its own allocation failures, from the empty state with any number of
+   clients and servers *)
+Theorem C17_every_history : forall md5 rx cfg nclients nservers ops,
+  safe (fold_left (hstep md5 rx cfg) ops (init_state nclients nservers)) zero.
+Proof. intros. apply safe_history. apply safe_init. Qed.
+Print Assumptions C17_every_history.
+
+(* ... so that, in every reachable state, whatever a cache entry, a reply queue or a slot refers to is a live
+   request object whose counter covers all the places that refer to it *)
+Theorem C17_no_dangling_reference : forall md5 rx cfg nclients nservers ops h,
+  let st := fold_left (hstep md5 rx cfg) ops (init_state nclients nservers) in
+  0 < refs st h -> exists r, get_rq st h = Some r /\ refs st h <= rq_refcount r.
+Proof. intros. apply safe_no_dangling; [|assumption]. apply safe_history. apply safe_init. Qed.
+Print Assumptions C17_no_dangling_reference.
+
+(* ---- exactly once.  The other half -- nothing leaks -- needs the tables to exist: client and server indices in
+   range (op_ok: the client of a received packet and the server of a writer exist, a received packet is an octet
+   string of at least 20 octets; cfg_ok: the realms name servers that exist).  Under these conditions, after EVERY
+   history of the six operations from the empty state, with any allocation failures:
+     - every request object's counter EQUALS the number of cache entries, reply-queue entries and slots that refer
+       to it (so an object is released exactly when the last of them lets go, and is never released before), and
+     - the executable check rc_ok, which the driver also evaluates on the model state after every operation of every
+       generated history, holds.
+   The proof carries three invariants through all handlers: safe (Refs_proofs), tight + table shape (Tight_proofs),
+   and the registration invariant REG -- a cached request came from that client and sits at its Identifier --
+   which sendreply (dereferences rq->from) and rmclientrq (clears the entry named by rq->from and the Identifier)
+   rely on (Reg_proofs). *)
+Theorem C17_exactly_once : forall md5, (forall x, length (md5 x) = 16%nat) -> (forall x, wf_bytes (md5 x) = true) ->
+  forall rx cfg nclients nservers ops, cfg_ok cfg nservers -> Forall (op_ok nclients nservers) ops ->
+  let st := fold_left (hstep md5 rx cfg) ops (init_state nclients nservers) in
+  (forall h, rcount st h = refs st h) /\ rc_ok st = true.
+Proof.
+  intros md5 L W rx cfg nc ns ops Hc Ho st.
+  assert (B : Bal nc ns st) by (apply (Bal_history md5 L W rx cfg nc ns Hc); [exact Ho | apply Bal_init]).
+  split; [exact (Bal_exact nc ns st B) | exact (Bal_rc_ok nc ns st B)].
+Qed.
+Print Assumptions C17_exactly_once.
+
+(* one step, from any balanced state (the handlers' own statements are T_radsrv, T_replyh, T_writer_release,
+   REG_radsrv ... in Proofs/) *)
+Theorem C17_step_keeps_balance : forall md5, (forall x, length (md5 x) = 16%nat) -> (forall x, wf_bytes (md5 x) = true) ->
+  forall rx cfg nclients nservers st op, cfg_ok cfg nservers -> op_ok nclients nservers op ->
+  Bal nclients nservers st -> Bal nclients nservers (hstep md5 rx cfg st op).
+Proof. intros md5 L W rx cfg nc ns st op Hc. exact (Bal_hstep md5 L W rx cfg nc ns Hc st op). Qed.
+Print Assumptions C17_step_keeps_balance.
